@@ -45,7 +45,7 @@ NAMES = ['foo', 'foo-bar', 'foobar', 'libfoo', 'foo2', 'foo_x', 'foo+', 'f.o', '
          'pango', 'pangoft2', 'pango-1.0']
 TAILS = ['.so', '.so.0', '-1.0.so.0', '2.so', '_x.so', '-bar.so', '.dylib', '.1.dylib', '']
 # listed files that are not of the form lib<name><tail>
-EXTRA_BASES = ['foo.so', 'xlibfoo.so', 'libFOO.so', 'Foo-1.0', 'linux-vdso.so.1', 'ld-linux-x86-64.so.2']
+EXTRA_BASES = ['foo.so', 'xlibfoo.so', 'x.libfoo.so', 'my-libfoo.so.0', 'libFOO.so', 'Foo-1.0', 'linux-vdso.so.1', 'ld-linux-x86-64.so.2']
 STYLES = ['ldd', 'bare', 'otool', 'bsd']
 DIRKINDS = ['none', 'usr', 'opt', 'sod', 'rpath']
 
@@ -305,7 +305,7 @@ def build_spaces(tier):
         nb = ['foo', 'foo-bar', 'pango', 'pango-1.0']
         sp.append(Space('B2', b_lines(nb, B_TAILS, B_DIRS, STYLES, HEADERS, NOISE), 0, 2, nb, 2))
         nb3 = ['foo', 'foo-bar', 'pango']
-        sp.append(Space('B3', b_lines(nb3, B3_TAILS, B3_DIRS, STYLES, HEADERS[:4], NOISE[:4]), 3, 3, nb3, 2))
+        sp.append(Space('B3', b_lines(nb3, B3_TAILS, B3_DIRS, ['ldd', 'bare', 'bsd'], HEADERS[:4], NOISE[:4]), 3, 3, nb3, 2))
     # membership masks: a (listing, request list) pair that already belongs to an earlier
     # space is skipped there, so every counted pair is a distinct canonical input
     for k, s in enumerate(sp):
